@@ -1135,7 +1135,7 @@ class G05(object):
 
     def fragment(self, tag):
         """one scenario: a list of form texts using globals suffixed by tag"""
-        r = self.rng.randrange(18)
+        r = self.rng.randrange(20)
         k, n, acc = "k" + tag, "n" + tag, "r" + tag
         times = self.rng.randint(0, 3)
         self.dist.hit("scenario:%d" % r)
@@ -1227,6 +1227,17 @@ class G05(object):
                     "(host%s %s)" % (tag, self.ival()),
                     "(define (other%s z) (let ((w (* z 2))) (let ((peek (lambda () w))) (if (< %s %d) (begin (set! %s (+ %s 1)) (%s (peek))) (peek)))))" % (tag, n, times, n, n, k),
                     "(other%s %s)" % (tag, self.ival()), "(other%s 7)" % tag]
+        if r in (18, 19):  # captured deep inside a non-tail recursion (the VM stack has grown beyond its initial
+            # 256 slots from depth 42), re-entered from later top-level forms after that evaluation has ended,
+            # with a failed or an ordinary evaluation in between
+            d = self.pick([3, 41, 42, 43, 64, 100, 300])
+            mid = self.pick(["'between", "(car '())", "(+ 1 2)", "(vector-ref (vector) 1)"])
+            self.dist.hit("deep-capture-depth_%d" % d)
+            return ["(define %s #f) (define %s 0)" % (k, n),
+                    "(define (deep%s i) (if (= i 0) (call/cc (lambda (c) (set! %s c) 0)) (+ 1 (deep%s (- i 1)))))" % (tag, k, tag),
+                    "(deep%s %d)" % (tag, d), mid,
+                    "(begin (set! %s (+ %s 1)) (%s (* 1000 %s)))" % (n, n, k, n),
+                    "(list %s (%s 5))" % (n, k) if self.chance(0.5) else "(%s 7)" % k]
         if r == 14 and self.wide:   # stored in a vector (vocabulary outside the model)
             self.dist.hit("wide-builtin")
             return ["(define vec%s (make-vector 2 #f)) (define %s 0)" % (tag, n),
